@@ -554,4 +554,53 @@ def r9_node_state(a, tier):
     return rep
 
 
-RULES = [r_chain, r1_registry, r2_fields, r3_string_images, r4_cycles, r5_state_keys, r6_exports, r7_source_literals, r8_structure, r9_node_state]
+def r10_generated_parser_copies_the_model(a, tier):
+    import textwrap
+
+    from ..minieval import MiniEval, Unsupported
+    rep = RuleReport(
+        'C14.R10',
+        'the parser class of a generated model module parses with the whole model: the source template PARSER(name) of '
+        'ngcodegen/grammar_gen.py (evaluated, then parsed as Python) rebuilds a per-parse Grammar from GRAMMAR_MODEL; that Grammar(...) call '
+        'hands over every content parameter of Grammar.__init__ - name, rules, directives, keywords - from `self.model.<the same name>`: a '
+        'parameter left out falls back to the configuration (no keywords: reserved words are accepted as names)',
+        floor=4,
+    )
+    fn = a.p.functions.get('tatsu.ngcodegen.grammar_gen.PARSER')
+    init = a.ct.lookup('tatsu.peg.base.Grammar', '__init__')
+    if fn is None or init is None:
+        raise AnalysisError('C14.R10: grammar_gen.PARSER / Grammar.__init__ not found')
+    try:
+        text = MiniEval({'version': '0', '__version__': '0'}).call_function(fn.node, ['X'])
+        tree = ast.parse(textwrap.dedent(str(text)))
+    except Unsupported as e:
+        raise AnalysisError(f'C14.R10: cannot evaluate the PARSER template: {e}') from e
+    except SyntaxError as e:
+        rep.fail(fn.qualname, 'template-syntax', f'the PARSER template is not valid Python: {e}', fn.loc)
+        return rep
+    calls = [n for n in ast.walk(tree) if isinstance(n, ast.Call) and isinstance(n.func, ast.Name) and n.func.id == 'Grammar']
+    if not calls:
+        rep.notes.append('the template no longer rebuilds a Grammar per parse')
+        rep.floor = 0
+        rep.add({'Grammar_calls_in_template': 0})
+        return rep
+    params = [x.arg for x in init.node.args.args[1:]] + [x.arg for x in init.node.args.kwonlyargs]
+    content = [p_ for p_ in params if p_ in ('name', 'rules', 'directives', 'keywords')]
+    for c in calls:
+        bound = {}
+        for p_, arg in zip([x.arg for x in init.node.args.args[1:]], c.args):
+            bound[p_] = arg
+        for k in c.keywords:
+            if k.arg:
+                bound[k.arg] = k.value
+        for p_ in content:
+            got = norm(bound[p_]) if p_ in bound else None
+            ok = got is not None and got.endswith(f'.model.{p_}')
+            rep.add({'Grammar_parameter': p_, 'passed': got, 'ok': ok})
+            if not ok:
+                rep.fail(fn.qualname, f'model-copy:{p_}', f'the generated parser class rebuilds its Grammar with {p_}={got}: the {p_} of GRAMMAR_MODEL ' + (
+                    'are not handed over, so the per-parse grammar has none (a @name rule accepts reserved words)' if p_ == 'keywords' else 'is not handed over'), fn.loc)
+    return rep
+
+
+RULES = [r_chain, r1_registry, r2_fields, r3_string_images, r4_cycles, r5_state_keys, r6_exports, r7_source_literals, r8_structure, r9_node_state, r10_generated_parser_copies_the_model]
